@@ -367,7 +367,11 @@ def tag_count_agreement(ctx, s):
         if k_ != "ok":
             continue
         facts = ctx.E.facts(fn, n_)
-        # returns before the loop (no tags) are decided by the counted == 0 test
+        # a return that does not lie behind the counting pass at all (an empty array recognised up front) writes its own
+        # count; returns before the loop (no tags) are decided by the counted == 0 test
+        cblocks = [b_ for b_, i_ in an.calls() if s.nice(i_["callee"] or "") == parsers.JP + "count_tags"]
+        if cblocks and not any(an.cfg.dominates(cb_, n_) for cb_ in cblocks):
+            continue
         zero = P.prove_le0(lc, facts)
         if zero:
             continue
